@@ -359,3 +359,15 @@ func specApply(d PropertyDescriptor, c specProp) specProp {
 	return specProp{present: true, accessor: accessor, writable: writable, enumerable: enumerable,
 		configurable: configurable, value: value, getter: getter, setter: setter}
 }
+
+// specSameValueModelled: the operand kinds for which specSameValue is a definition rather than an
+// uninterpreted function.
+func specSameValueModelled(a Value) bool {
+	switch a.(type) {
+	case valueUndefined, valueNull, valueBool, valueInt, valueFloat:
+		return true
+	case *Object:
+		return true
+	}
+	return false
+}
